@@ -34,7 +34,7 @@ PathLineOK(e) ==
 DocLineOK(e) ==
   IF ~e.wfin THEN Reject(l, "machinery-input")            \* "all well-formed SVG documents"
   ELSE IF ~e.ok \/ ~e.wfout THEN Reject(l, "wf")          \* does not render at all
-  ELSE LET sa == Strip(e.ein)  sb == Strip(e.eout)
+  ELSE LET sa == Strip(e.ein, e.css)  sb == Strip(e.eout, e.css)
            ta == Tree(sa)      tb == Tree(sb)
        IN IF ~ShapeEq(ta, tb) THEN Reject(l, "tree")
           ELSE /\ (AllElements(ta, tb, PrefixedKept) \/ Reject(l, "attr-prefixed"))
